@@ -67,21 +67,24 @@ Lemma single_frame_guard_tie : single_frame_guard = (CEq, "1").
 Proof. reflexivity. Qed.
 Lemma interp1d_arguments_tie : interp1d_arguments = ["partial_steps"; "partial_frames"; "axis=0"; "kind=this_kind"].
 Proof. reflexivity. Qed.
-Lemma padding_tie : padding = ["np.zeros((first_step_index, frames.shape[1]))"; "np.array(frame_data)";
-                               "np.zeros((len(new_steps) - last_step_index, frames.shape[1]))"].
+Definition padding_expected : list string :=
+  ["np.zeros((first_step_index, frames.shape[1]))"; "np.array(frame_data)";
+   "np.zeros((len(new_steps) - last_step_index, frames.shape[1]))"].
+Lemma padding_tie : padding = padding_expected.
 Proof. reflexivity. Qed.
 Lemma result_tie : result_expr = "NumPyPoseBody(fps=new_fps, data=dimensions, confidence=confidence)".
 Proof. reflexivity. Qed.
-Lemma constructor_tie : constructor_statements =
+Definition constructor_statements_expected : list string :=
   [ "0:if isinstance(data, np.ndarray)";
     "1:mask = confidence == 0";
     "1:stacked_mask = np.stack([mask] * data.shape[-1], axis=3)";
     "1:data = ma.masked_array(data, mask=stacked_mask)";
     "0:super().__init__(fps, data, confidence)" ].
+Lemma constructor_tie : constructor_statements = constructor_statements_expected.
 Proof. reflexivity. Qed.
 
 (* ---- the whole function, statement by statement (the repaired source: proposed-fixes/F17) *)
-Lemma interpolate_statements_tie : interpolate_statements =
+Definition interpolate_statements_expected : list string :=
   [ "0:try";
     "1:from scipy.interpolate import interp1d";
     "0:except ImportError";
@@ -132,4 +135,21 @@ Lemma interpolate_statements_tie : interpolate_statements =
     "0:dimensions, confidence = np.split(new_data, [-1], axis=3)";
     "0:confidence = np.squeeze(confidence, axis=3)";
     "0:return NumPyPoseBody(fps=new_fps, data=dimensions, confidence=confidence)" ].
+Lemma interpolate_statements_tie : interpolate_statements = interpolate_statements_expected.
 Proof. reflexivity. Qed.
+
+(* the literal facts, collected *)
+Definition source_facts : Prop :=
+  grid_old = (0, 1)%Z /\ grid_new = (0, 1)%Z /\
+  confidence_mask_rule = (CEq, "0") /\ constructor_mask_rule = ("confidence", CEq, "0") /\
+  full_range_test = (("first_step", CEq, "0"), ("last_step", CEq, "1")) /\
+  single_frame_guard = (CEq, "1") /\
+  interp1d_arguments = ["partial_steps"; "partial_frames"; "axis=0"; "kind=this_kind"] /\
+  result_expr = "NumPyPoseBody(fps=new_fps, data=dimensions, confidence=confidence)".
+Lemma source_facts_hold : source_facts.
+Proof. repeat split; reflexivity. Qed.
+Definition source_statements : Prop :=
+  interpolate_statements = interpolate_statements_expected /\ constructor_statements = constructor_statements_expected /\
+  padding = padding_expected.
+Lemma source_statements_hold : source_statements.
+Proof. repeat split; reflexivity. Qed.
